@@ -343,6 +343,18 @@ def _fp_problem(rng, momentum):
     dist = _lu(rng, 1e-3, 1e3)
     v = rng.normal(size=n)
     x0 = c + dist * v / np.linalg.norm(v)
+    if not momentum and n >= 2 and rng.random() < 0.08:
+        # partial divergence: all components but the last contract as before, the last one runs away (x -> x^2 + 2) and
+        # overflows after about ten sweeps; there is no point that meets the tolerance, the helper can only raise
+        F0, k_ = F, n - 1
+
+        def F(x, F0=F0, k_=k_):
+            with np.errstate(all="ignore"):
+                y = np.array(F0(np.where(np.isfinite(x), x, 0.0)), dtype=float)
+                y[k_] = x[k_] * x[k_] + 2.0
+            return y
+        x0 = x0.copy(); x0[k_] = 3.0
+        fam = fam + "+runaway_component"
     desc = {"family": fam, "n": n, "L": L, "c": c, "x0": x0, "dist_x0": dist, **par}
     return desc, F, L, x0
 
@@ -495,6 +507,13 @@ def _run_fprime(ctx, rng):
     x = rng.normal(size=m) * xmag
     if rng.random() < 0.1:
         x[int(rng.integers(m))] = 0.0
+    # (3-point only: the 2-point rule also uses f(x0) at the array as given, i.e. evaluated by the user's function in single
+    #  precision - the accuracy of THAT is the caller's, not the method's)
+    single = bool(rng.random() < 0.2) and method == "3-point"
+    if single:
+        # the point is handed over as a float32 array (data read from a file, a GPU buffer); its values are exact float32 numbers,
+        # the derivative is still a float64 finite difference of the float64 function
+        x = x.astype(np.float32).astype(float)
     default_eps = rng.random() < 0.25
     if default_eps:
         h = 1e-6
@@ -564,6 +583,9 @@ def _run_fprime(ctx, rng):
     x_arg = float(x[0]) if x_shape == () else x.reshape(x_shape).copy()
     if fam == "poly" and integer_point:
         x_arg = int(x[0]) if x_shape == () else x.reshape(x_shape).astype(np.int64)
+    if single and not (fam == "poly" and integer_point):
+        x_arg = np.float32(x[0]) if x_shape == () else x.reshape(x_shape).astype(np.float32)
+        ctx.cls("fprime:x_dtype=float32")
     # csr also bounds the rounding of the harness' own exact Jacobian, so it enters every tolerance
     if method == "2-point":
         tol = 10 * (0.5 * h * M2 + 2 * ef[:, None] / h + csr)
@@ -670,6 +692,8 @@ def _run(spec, ctx):
             if rng.random() < 0.3:
                 rtol = 1e-12  # absolute-dominated: uniform scale
             mi = _max_iter(rng, big=True)
+            if desc["family"].endswith("runaway_component"):
+                mi = max(mi, 40)
             r = _fp_check(ctx, kind, helper, desc, F, L, x0, atol, rtol, mi)
             sig.append([desc["family"], desc["n"], x0.tolist(), atol, rtol, mi])
             if r.get("evals", 0) > 1:
